@@ -108,6 +108,12 @@ def run_unit(template, repo, workdir, name=None, canary=False, extra_args=(), ti
             fid = fid[len(crate) + 2:]
         res["functions"][fid] = {"success": bool(f.get("success")), "time_us": f.get("time-micros", 0),
                                  "rlimit": f.get("rlimit", 0), "mode": f.get("mode:", "")}
+    if not fb and any(d.get("level") == "error" and not str(d.get("message", "")).startswith("aborting") for d in diags):
+        # rustc / VIR rejected the extracted text (e.g. the tree now uses an item the unit does not
+        # know): nothing was verified - inconclusive, never a violation
+        res["status"] = "compile-error"
+        res["error"] = "\n".join(d.get("rendered", "") for d in diags if d.get("level") == "error")[:6000]
+        return res
     res["verified"] = vr.get("verified")
     res["errors"] = vr.get("errors")
     ranges = fn_ranges(out_rs)
